@@ -357,6 +357,24 @@ func runC11(r *simkit.Run) {
 			r.Failf("reader-bytes", "packet %d of %v read back as %d bytes, differs from the %d bytes written", i, lens, len(data), len(p))
 			goto done
 		}
+		if readerAPI == 1 && tp.Chance(1, 3) {
+			// while this payload is still held (not recycled yet), another connection of the process reads a
+			// payload of the same size class through the shared buffer pool: what the first reader returned must
+			// stay the original payload until it says it is done with it
+			other := pattern(len(p), 0x5a)
+			rc2 := mysql.NewConn(&simStream{data: refWire(refFrames(other, 0)), eofAt: -1})
+			d2, err2 := rc2.ReadEphemeralPacket()
+			if err2 != nil || !bytes.Equal(d2, other) {
+				r.Failf("reader-bytes", "a second connection reading %d bytes got %d bytes, err %v", len(other), len(d2), err2)
+				goto done
+			}
+			if !bytes.Equal(data, p) {
+				r.Failf("reader-bytes", "packet %d (%d bytes) was returned intact, but while it was still held (before RecycleReadPacket) a read of %d bytes on another connection changed it", i, len(p), len(other))
+				goto done
+			}
+			rc2.RecycleReadPacket()
+			r.Probe("payload-held-while-another-connection-reads")
+		}
 		if readerAPI == 1 {
 			rc.RecycleReadPacket()
 		}
